@@ -285,15 +285,30 @@ VH_ENTRY vh_assoc_op() {
 
 // =================================================================================== C02: growth cap and map exhaustion
 // ---- Segment::newSlot refuses to grow a segment beyond 64 slots per input character (MAX_SEG_GROWTH_FACTOR)
+#ifndef BUFSZ
+#define BUFSZ 1
+#endif
 VH_ENTRY vh_newslot_cap() {
   World w; vh_make_face(w); vh_make_segment(w);
   w.seg->m_freeSlots = 0;                               // free list empty: the next slot needs a new buffer
   w.seg->m_numCharinfo = nondet_u8() & 3; w.seg->m_numGlyphs = nondet_u16();
-  w.seg->m_bufSize = 1;
+  w.seg->m_bufSize = BUFSZ;                             // log2(characters) + 1: a one-character text gets single-slot buffers
   size_t ng = w.seg->m_numGlyphs, nc = w.seg->m_numCharinfo;
   Slot *s = w.seg->newSlot();
   if (ng > nc * 64) ASSERT(s == 0, "no new slot once the segment holds more than 64 slots per character");
-  else ASSERT(s != 0 && s->m_next == 0 && s->m_prev == 0 && !s->isDeleted() && !s->isCopied(), "otherwise a fresh, unlinked slot");
+  else {
+    ASSERT(s != 0 && s->m_next == 0 && s->m_prev == 0 && !s->isDeleted() && !s->isCopied(), "otherwise a fresh, unlinked slot");
+    // the pool keeps working: the following requests are served from the rest of the buffer and then from a second buffer; every slot handed
+    // out is a distinct, unlinked object inside memory the segment owns (cbmc's bounds checks decide the latter)
+    Slot *got[BUFSZ + 2]; got[0] = s;
+    for (unsigned k = 1; k < BUFSZ + 2; ++k) {
+      Slot *t = w.seg->newSlot();
+      ASSERT(t != 0 && t->m_next == 0 && t->m_prev == 0, "next request: again a fresh, unlinked slot");
+      if (t) { t->m_glyphid = (uint16)k; t->m_before = (int)k; }         // use it as a rule would
+      for (unsigned j = 0; j < k; ++j) ASSERT(got[j] != t, "never the same slot twice");
+      got[k] = t;
+    }
+  }
   VH_END();
 }
 
